@@ -95,7 +95,7 @@ func init() {
 		ID:    "C11",
 		Level: "exploration",
 		Rule: "every string over {a, n, t, \", \\, space, é, LF, TAB, CR, FF} up to length 4 (quick) / 6 (thorough, 1948717 strings; exhaustive) plus random strings to length 12: lit(s) escapes backslash and double quote and writes the four control characters as \\n \\t \\r \\f. " +
-			"Oracles: ParseZqlString(lit(s)) == s; over rows holding s and its confusables (escape sequences decoded / not decoded / doubled, quotes trimmed, ...) the filters f = lit, f != lit, f in [lit], f contains lit, anyOf(tags) = lit (seek path) and anyOf(tags) != lit " +
+			"Oracles: ParseZqlString(lit(s)) == s; over rows holding s and its confusables (escape sequences decoded / not decoded / doubled, quotes trimmed, ...) the filters f = lit, f != lit, f in [lit], f in [lit, \"\"] / [\"\", lit] / [other, lit], f not in [lit, \"\"], f contains lit, the same comparisons on a map element (any-type symbol), anyOf(tags) = lit (seek path) and anyOf(tags) != lit " +
 			"must select exactly the rows the string semantics selects, evaluated through package ast over an in-memory symbol table and (sampled) through a bolt store. non-trivial = distinct strings that contain at least one of backslash, quote or a control character",
 		Assumptions: []string{"the literal spelling is the one the statement describes; other spellings (raw control characters) are not sentences"},
 		Exhaustive:  func(t core.Tier) bool { return true },
@@ -124,6 +124,8 @@ func runC11(c *core.Ctx, idx int) {
 			strs = append(strs, c11String(i))
 		}
 	} else {
+		// strings that read like another kind of literal: they denote themselves, whatever the symbol they are compared with
+		strs = append(strs, "2023-01-01T00:00:00Z", "2020-01-02T03:04:05.123+05:45", "datetime(2020-01-02T03:04:05Z)", "true", "false", "null", "123", "-1", "1.5", "1e3", "[1]", `["a"]`, "anyOf(a)", "a and b", "not", "")
 		for i := 0; i < 150; i++ {
 			n := 5 + r.Intn(8)
 			var sb strings.Builder
@@ -137,9 +139,10 @@ func runC11(c *core.Ctx, idx int) {
 	tbl.Types["f"] = ast.NodeTypeString
 	tbl.Types["tags"] = ast.NodeTypeString
 	tbl.Sets["tags"] = true
+	tbl.Types["mp.k"] = ast.NodeTypeAnyType
 
 	// bolt store for the sampled path
-	def := &schema.StoreDef{Type: "strs", BasePath: []string{"stores"}, Fields: []schema.Field{{Name: "f", Kind: schema.KStr}, {Name: "tags", Kind: schema.KList}}}
+	def := &schema.StoreDef{Type: "strs", BasePath: []string{"stores"}, Fields: []schema.Field{{Name: "f", Kind: schema.KStr}, {Name: "tags", Kind: schema.KList}, {Name: "mp", Kind: schema.KMap}}}
 	sc := schema.Build([]*schema.StoreDef{def})
 	path := c.TempFile("c11")
 	db, err := sc.OpenDb(path)
@@ -161,6 +164,17 @@ func runC11(c *core.Ctx, idx int) {
 			c.Nontrivial(s)
 		}
 		cands := append([]string{s}, confusables(s)...)
+		if s != "" {
+			hasEmpty := false
+			for _, cand := range cands {
+				if cand == "" {
+					hasEmpty = true
+				}
+			}
+			if !hasEmpty {
+				cands = append(cands, "")
+			}
+		}
 		type q struct {
 			name string
 			text string
@@ -172,6 +186,13 @@ func runC11(c *core.Ctx, idx int) {
 			{"!=", "f != " + lit, func(row string) bool { return row != s }, false},
 			{"in", "f in [" + lit + "]", func(row string) bool { return row == s }, false},
 			{"contains", "f contains " + lit, func(row string) bool { return strings.Contains(row, s) }, false},
+			{"in [lit, \"\"]", "f in [" + lit + `, ""]`, func(row string) bool { return row == s || row == "" }, false},
+			{"in [\"\", lit]", `f in ["", ` + lit + "]", func(row string) bool { return row == s || row == "" }, false},
+			{"in [other, lit]", `f in ["zz-other", ` + lit + "]", func(row string) bool { return row == s || row == "zz-other" }, false},
+			{"not in [lit, \"\"]", "f not in [" + lit + `, ""]`, func(row string) bool { return row != s && row != "" }, false},
+			{"map element =", "mp.k = " + lit, func(row string) bool { return row == s }, false},
+			{"map element !=", "mp.k != " + lit, func(row string) bool { return row != s }, false},
+			{"map element in", "mp.k in [" + lit + "]", func(row string) bool { return row == s }, false},
 			{"anyOf =", "anyOf(tags) = " + lit, nil, true},
 		}
 		for _, qq := range qs {
@@ -185,6 +206,7 @@ func runC11(c *core.Ctx, idx int) {
 				for _, cand := range cands {
 					row := memsym.NewRow(tbl)
 					row.Vals["f"] = cand
+					row.Vals["mp.k"] = cand
 					want := qq.pred(cand)
 					if got := query.EvalBool(row); got != want {
 						c.Violationf("C11 literal denotes another string ("+qq.name+"): "+classifyEsc(s, cand), map[string]any{"s": s, "row": cand, "query": qq.text},
@@ -257,7 +279,7 @@ func c11Bolt(c *core.Ctx, db *boltz.DbImpl, st *schema.St, s string, cands []str
 			if cand != "" {
 				tags = append(tags, cand)
 			}
-			if err := st.Store.Create(ctx, &schema.Ent{Id: fmt.Sprintf("r%02d", i), Typ: "strs", V: map[string]any{"f": cand, "tags": tags}}); err != nil {
+			if err := st.Store.Create(ctx, &schema.Ent{Id: fmt.Sprintf("r%02d", i), Typ: "strs", V: map[string]any{"f": cand, "tags": tags, "mp": map[string]any{"k": cand}}}); err != nil {
 				return err
 			}
 		}
@@ -288,6 +310,10 @@ func c11Bolt(c *core.Ctx, db *boltz.DbImpl, st *schema.St, s string, cands []str
 		check("=", "f = "+lit, func(_ int, cand string) bool { return cand == s })
 		check("!=", "f != "+lit, func(_ int, cand string) bool { return cand != s })
 		check("contains", "f contains "+lit, func(_ int, cand string) bool { return strings.Contains(cand, s) })
+		check(`in [lit, ""]`, "f in ["+lit+`, ""]`, func(_ int, cand string) bool { return cand == s || cand == "" })
+		check(`in ["", lit]`, `f in ["", `+lit+"]", func(_ int, cand string) bool { return cand == s || cand == "" })
+		check("map element =", "mp.k = "+lit, func(_ int, cand string) bool { return cand == s })
+		check("map element in", "mp.k in ["+lit+"]", func(_ int, cand string) bool { return cand == s })
 		if s != "" {
 			check("anyOf =", "anyOf(tags) = "+lit, func(_ int, cand string) bool { return cand == s })
 			check("anyOf in", "anyOf(tags) in ["+lit+"]", func(_ int, cand string) bool { return cand == s })
